@@ -3,6 +3,7 @@ let () =
   let f = match Sys.argv.(1) with
     | "c18" -> C18.run_case
     | "reg" -> Reg.run_case
+    | "probe" -> Reg.run_probe
     | p -> failwith ("unknown property " ^ p) in
   try
     while true do
